@@ -269,6 +269,10 @@ def run(ctx):
     ctx.rule("R-4.9", "path numbers are never tested by truthiness (path 0 is a path): a rejected move on path 0 must not renumber it and orphan its accumulated weights", floor=3)
     from .shared import path_number_truthiness
     ctx.attempt(path_number_truthiness, ctx, "R-4.9", [REPEX, "infretis/classes/path.py", "infretis/core/tis.py"], ": a rejected move on path 0 gives it a new number and a fresh all-zero accumulator; the old weights are neither archived nor kept live, so data rows plus live weights no longer add up to the step count")
+    ctx.rule("R-4.10", "the weights recorded at a step are rows of the P matrix of the state after the finished job was inserted: no read of a memoised matrix that was computed for an earlier busy set (shared with C02 R-2.1)", floor=20)
+    from . import c02 as _c02
+    from .shared import RuleProxy as _RP4
+    ctx.attempt(_c02.r21, _RP4(ctx, "R-4.10", " - the ensemble that has just become idle is credited 0 instead of its share for this step: rows in the data file plus live weights no longer add up to the number of idle steps"))
     ctx.attempt(r41, ctx)
     ctx.attempt(r42, ctx)
     ctx.attempt(r43, ctx)
@@ -282,6 +286,7 @@ def run(ctx):
 
 
 VARIANTS = [
+    B("c04-rejected-job-freed-without-invalidation", REPEX, "            self.add_traj(ens_num, out_traj, valid=out_traj.weights)\n\n        # record weights", "            if out_traj.path_number == pn_old:\n                self._locks[ens_num + self._offset] = 0\n            else:\n                self.add_traj(ens_num, out_traj, valid=out_traj.weights)\n\n        # record weights", "R-4.10", control=True, why="seeded C04_h"),
     B("c04-path-number-by-truthiness", REPEX, '            if out_traj.path_number is None or md_items["status"] == "ACC":', '            if not out_traj.path_number or md_items["status"] == "ACC":', "R-4.9", control=True, why="seeded C04_g"),
     B("c04-data-rows-buffered-handle", REPEX, '    with open(state.data_file, "a") as fp:\n        for pn in pn_archive:', '    fp = state.__dict__.setdefault("_data_fp", open(state.data_file, "a"))\n    if True:\n        for pn in pn_archive:', "R-4.8", control=True, why="seeded C04_f / C08_d (handle kept open between steps)"),
     B("c04-restart-resets-data-file", SETUP, '        curr["restarted_from"] = config["current"]["cstep"]\n', '        curr["restarted_from"] = config["current"]["cstep"]\n        config["output"]["data_file"] = os.path.join(config["output"]["data_dir"], "infretis_data.txt")\n', "R-4.7", control=True, why="seeded C04_d"),
